@@ -15,7 +15,7 @@ open CC
 open CC.Spec.Seq (Cfg Op Out)
 
 /-- `expand_capacity`: a refusal changes nothing, in particular not `capacity` (A2) -/
-theorem expand_refused_inert (a : Arr) (m : Mem) (hmax : a.capacity ≠ Gen.CC_MAX_ELEMENTS) (hr : m.alloc.1 = false) :
+theorem expand_refused_inert (a : Arr) (m : Mem) (hmax : ¬ a.AtLimit) (hr : m.alloc.1 = false) :
     a.expandCapacity m = (.errAlloc, a, m.alloc.2) ∧ m.alloc.2.live = m.live ∧ m.alloc.2.fault = m.fault :=
   ⟨Arr.expandCapacity_refused a m hmax hr, (Mem.alloc_fst_false m hr).1, (Mem.alloc_fst_false m hr).2.1⟩
 
@@ -124,10 +124,10 @@ theorem stack_new_atomic (cap : Nat) (grow : Nat → Nat) (exGe : Nat → Bool) 
   · exact absurd ok h
 
 theorem stack_filter_atomic (p : Nat → Bool) (s : Stack) (dgrow : Nat → Nat) (dexGe : Nat → Bool) (m : Mem)
-    (hinv : s.Inv) (hg : ∀ c, dgrow c ≤ Gen.CC_MAX_ELEMENTS) (h : (s.filter p dgrow dexGe m).1 ≠ .ok) :
+    (hinv : s.Inv) (h : (s.filter p dgrow dexGe m).1 ≠ .ok) :
     (s.filter p dgrow dexGe m).2.1 = none ∧ (s.filter p dgrow dexGe m).2.2.2.live = m.live ∧
     (s.filter p dgrow dexGe m).2.2.2.fault = m.fault := by
-  rcases Stack.filter_spec p s dgrow dexGe m hinv hg with ⟨_, _, s2, s3⟩ | ⟨_, _, s2, s3, s4⟩ | ⟨ok, _⟩
+  rcases Stack.filter_spec p s dgrow dexGe m hinv with ⟨_, _, s2, s3⟩ | ⟨_, _, s2, s3, s4⟩ | ⟨ok, _⟩
   · rw [s3]; exact ⟨s2, rfl, rfl⟩
   · exact ⟨s2, s3, s4⟩
   · exact absurd ok h
